@@ -192,6 +192,7 @@ func checkC15(c RenameCase) Verdict {
 		src = c.C.source(true)
 		bc := *c.C
 		bc.Stmts, bc.Labels, bc.Before, bc.After, bc.Externs, bc.EndLabels = nil, nil, nil, nil, nil, nil
+		bc.SectionAt = 0 // (the directive would otherwise sit behind statements the baseline does not have)
 		hdr = bc.source(true)
 	}
 	src2 := renameSource(src, c.Ren)
@@ -212,6 +213,9 @@ func checkC15(c RenameCase) Verdict {
 	d1, d2 := r1.Failed() || len(e1) > 0, r2.Failed() || len(e2) > 0
 	if d1 && d2 {
 		v.Skip = "diagnosed"
+		if len(e1) > 0 {
+			v.Skip = "diagnosed: " + asm.DiagClass(&asm.Result{Diags: e1}, nil)
+		}
 		return v
 	}
 	fail := func(kind, f string, a ...any) Verdict {
